@@ -252,7 +252,7 @@ theorem zipWith_map_self {β γ δ : Type} (f : β → γ → δ) (h : β → γ
 theorem members_cons (j : Nat) (x : List α) (xs : List (List α)) (m : Nat) (mem : List Nat) :
     members j (x :: xs) (m :: mem) = if m = j then x :: members j xs mem else members j xs mem := by
   unfold members
-  by_cases h : m = j <;> simp [List.filter_cons, h]
+  by_cases h : m = j <;> simp [h]
 
 theorem members_sub (j : Nat) (xs : List (List α)) (mem : List Nat) :
     ∀ x ∈ members j xs mem, x ∈ xs := by
@@ -366,6 +366,228 @@ theorem lloydStep_cost_le (p : Nat) (cs xs : List (List α)) (w : WF p cs xs) :
   intro x hx
   rw [getD_dim p cs w.cdim j hj']
   exact w.xdim x (members_sub _ _ _ x hx)
+
+theorem fitLoop_wf (rd : List α → List α → α) (conv : List (List α) → List (List α) → Bool)
+    (p : Nat) (xs : List (List α)) (m : Nat) (cs : List (List α)) (w : WF p cs xs) :
+    WF p (fitLoop rd conv xs m cs) xs := by
+  induction m generalizing cs with
+  | zero => simpa [fitLoop] using w
+  | succ f ih =>
+    simp only [fitLoop]
+    split
+    · exact lloydStep_wf rd p cs xs w
+    · exact ih _ (lloydStep_wf rd p cs xs w)
+
+theorem fitLoop_length (rd : List α → List α → α) (conv : List (List α) → List (List α) → Bool)
+    (xs : List (List α)) (m : Nat) (cs : List (List α)) :
+    (fitLoop rd conv xs m cs).length = cs.length := by
+  induction m generalizing cs with
+  | zero => simp [fitLoop]
+  | succ f ih =>
+    simp only [fitLoop]
+    split
+    · simp [lloydStep, updateCentroids_length]
+    · rw [ih]; simp [lloydStep, updateCentroids_length]
+
+theorem fitLoop_conv (rd : List α → List α → α) (conv : List (List α) → List (List α) → Bool)
+    (xs : List (List α)) (f : Nat) (cs : List (List α)) (h : conv cs (lloydStep rd xs cs) = true) :
+    fitLoop rd conv xs (f + 1) cs = lloydStep rd xs cs := by
+  simp [fitLoop, h]
+
+theorem fitLoop_one (rd : List α → List α → α) (conv : List (List α) → List (List α) → Bool)
+    (xs : List (List α)) (cs : List (List α)) :
+    fitLoop rd conv xs 1 cs = lloydStep rd xs cs := by
+  simp [fitLoop]
+
+theorem fitLoop_nconv (rd : List α → List α → α) (conv : List (List α) → List (List α) → Bool)
+    (xs : List (List α)) (f : Nat) (cs : List (List α)) (h : conv cs (lloydStep rd xs cs) = false) :
+    fitLoop rd conv xs (f + 2) cs = fitLoop rd conv xs (f + 1) (lloydStep rd xs cs) := by
+  rw [fitLoop]; simp [h]
+
+/-- one more iteration in the budget never gives a higher cost -/
+theorem fitLoop_cost_succ (conv : List (List α) → List (List α) → Bool) (p : Nat)
+    (xs : List (List α)) (m : Nat) (cs : List (List α)) (w : WF p cs xs) :
+    cost sqL2 (fitLoop sqL2 conv xs (m + 2) cs) xs ≤ cost sqL2 (fitLoop sqL2 conv xs (m + 1) cs) xs := by
+  induction m generalizing cs with
+  | zero =>
+    by_cases hc : conv cs (lloydStep sqL2 xs cs) = true
+    · rw [fitLoop_conv _ _ _ _ _ hc, fitLoop_conv _ _ _ _ _ hc]
+    · have hc' : conv cs (lloydStep sqL2 xs cs) = false := by simpa using hc
+      rw [fitLoop_nconv sqL2 conv xs 0 cs hc', fitLoop_one, fitLoop_one]
+      exact lloydStep_cost_le p _ xs (lloydStep_wf sqL2 p cs xs w)
+  | succ n ih =>
+    by_cases hc : conv cs (lloydStep sqL2 xs cs) = true
+    · rw [fitLoop_conv _ _ _ _ _ hc, fitLoop_conv _ _ _ _ _ hc]
+    · have hc' : conv cs (lloydStep sqL2 xs cs) = false := by simpa using hc
+      rw [fitLoop_nconv sqL2 conv xs (n + 1) cs hc', fitLoop_nconv sqL2 conv xs n cs hc']
+      exact ih _ (lloydStep_wf sqL2 p cs xs w)
+
+theorem fitLoop_cost_antitone (conv : List (List α) → List (List α) → Bool) (p : Nat)
+    (xs : List (List α)) (cs : List (List α)) (w : WF p cs xs) (m m' : Nat) (h1 : 1 ≤ m)
+    (h : m ≤ m') :
+    cost sqL2 (fitLoop sqL2 conv xs m' cs) xs ≤ cost sqL2 (fitLoop sqL2 conv xs m cs) xs := by
+  induction m' with
+  | zero => omega
+  | succ n ih =>
+    by_cases hmn : m = n + 1
+    · subst hmn; exact le_refl _
+    · have hle : m ≤ n := by omega
+      refine le_trans ?_ (ih hle)
+      obtain ⟨n', rfl⟩ : ∃ n', n = n' + 1 := ⟨n - 1, by omega⟩
+      exact fitLoop_cost_succ conv p xs n' cs w
+
+/-- coordinates of a vector inside per-coordinate bounds -/
+def InBox (lo hi : Nat → α) (v : List α) : Prop :=
+  ∀ d, d < v.length → lo d ≤ v.getD d 0 ∧ v.getD d 0 ≤ hi d
+
+theorem mean_in_range (ys : List α) (c lo hi : α) (hy : ∀ y ∈ ys, lo ≤ y ∧ y ≤ hi)
+    (hc : lo ≤ c ∧ c ≤ hi) :
+    lo ≤ (ys.sum + c) / ((ys.length : α) + 1) ∧ (ys.sum + c) / ((ys.length : α) + 1) ≤ hi := by
+  have hb : (ys.length : α) * lo ≤ ys.sum ∧ ys.sum ≤ (ys.length : α) * hi := by
+    induction ys with
+    | nil => simp
+    | cons y ys ih =>
+      obtain ⟨h1, h2⟩ := ih (fun z hz => hy z (by simp [hz]))
+      obtain ⟨h3, h4⟩ := hy y (by simp)
+      simp only [List.sum_cons, List.length_cons]; push_cast
+      constructor <;> nlinarith
+  have hn1 : (0 : α) < (ys.length : α) + 1 := by
+    have : (0 : α) ≤ (ys.length : α) := Nat.cast_nonneg _
+    linarith
+  constructor
+  · rw [le_div_iff₀ hn1]; nlinarith [hb.1, hc.1]
+  · rw [div_le_iff₀ hn1]; nlinarith [hb.2, hc.2]
+
+theorem lloydStep_inBox (rd : List α → List α → α) (lo hi : Nat → α) (p : Nat)
+    (cs xs : List (List α)) (w : WF p cs xs) (hx : ∀ x ∈ xs, InBox lo hi x)
+    (hcs : ∀ c ∈ cs, InBox lo hi c) : ∀ c ∈ lloydStep rd xs cs, InBox lo hi c := by
+  intro c hc
+  unfold lloydStep updateCentroids at hc
+  simp only [List.mem_map, List.mem_range] at hc
+  obtain ⟨j, hj, rfl⟩ := hc
+  have hd := getD_dim p cs w.cdim j hj
+  have hrows : ∀ x ∈ members j xs ((assign rd cs xs).map (·.1)), x.length = (cs.getD j []).length :=
+    fun x hx' => by rw [hd]; exact w.xdim x (members_sub _ _ _ x hx')
+  obtain ⟨hl, hcoord⟩ := updateOne_spec (cs.getD j []) _ hrows
+  intro d hdl
+  rw [hl] at hdl
+  rw [hcoord d hdl]
+  have hcj : InBox lo hi (cs.getD j []) := by
+    rw [getD_eq_getElem' _ _ hj]; exact hcs _ (List.getElem_mem hj)
+  have := mean_in_range ((members j xs ((assign rd cs xs).map (·.1))).map (·.getD d 0))
+    ((cs.getD j []).getD d 0) (lo d) (hi d) (by
+      intro y hy
+      obtain ⟨x, hxm, rfl⟩ := List.mem_map.mp hy
+      have hxx := members_sub _ _ _ x hxm
+      exact hx x hxx d (by rw [w.xdim x hxx, ← hd]; exact hdl)) (hcj d hdl)
+  simpa using this
+
+theorem fitLoop_inBox (rd : List α → List α → α) (conv : List (List α) → List (List α) → Bool)
+    (lo hi : Nat → α) (p : Nat) (xs : List (List α)) (hx : ∀ x ∈ xs, InBox lo hi x) (m : Nat)
+    (cs : List (List α)) (w : WF p cs xs) (hcs : ∀ c ∈ cs, InBox lo hi c) :
+    ∀ c ∈ fitLoop rd conv xs m cs, InBox lo hi c := by
+  induction m generalizing cs with
+  | zero => simpa [fitLoop] using hcs
+  | succ f ih =>
+    simp only [fitLoop]
+    split
+    · exact lloydStep_inBox rd lo hi p cs xs w hx hcs
+    · exact ih _ (lloydStep_wf rd p cs xs w) (lloydStep_inBox rd lo hi p cs xs w hx hcs)
+
+/-- the selection keeps a candidate and never raises the kept inertia -/
+theorem better_some (ltInf : α → Bool) (b r : Run α) :
+    ∃ b', better ltInf (some b) r = some b' ∧ b'.inertia ≤ b.inertia ∧ (b' = b ∨ b' = r) := by
+  unfold better
+  by_cases h : r.inertia < b.inertia
+  · exact ⟨r, by simp [h], le_of_lt h, Or.inr rfl⟩
+  · exact ⟨b, by simp [h], le_refl _, Or.inl rfl⟩
+
+theorem foldl_better_some (ltInf : α → Bool) (rs : List (Run α)) (b : Run α) :
+    ∃ b', rs.foldl (better ltInf) (some b) = some b' ∧ b'.inertia ≤ b.inertia ∧
+      (b' = b ∨ b' ∈ rs) := by
+  induction rs generalizing b with
+  | nil => exact ⟨b, rfl, le_refl _, Or.inl rfl⟩
+  | cons r rs ih =>
+    obtain ⟨b1, e1, l1, m1⟩ := better_some ltInf b r
+    obtain ⟨b2, e2, l2, m2⟩ := ih b1
+    refine ⟨b2, by simp [List.foldl_cons, e1, e2], le_trans l2 l1, ?_⟩
+    rcases m2 with rfl | m2
+    · rcases m1 with rfl | rfl
+      · exact Or.inl rfl
+      · exact Or.inr (by simp)
+    · exact Or.inr (by simp [m2])
+
+theorem foldl_better_mem (ltInf : α → Bool) (rs : List (Run α)) (b : Run α)
+    (h : rs.foldl (better ltInf) none = some b) : b ∈ rs := by
+  induction rs with
+  | nil => simp at h
+  | cons r rs ih =>
+    simp only [List.foldl_cons] at h
+    by_cases hl : ltInf r.inertia = true
+    · simp only [better, hl, if_true] at h
+      obtain ⟨b', e, _, m⟩ := foldl_better_some ltInf rs r
+      rw [e] at h; cases h
+      rcases m with rfl | m
+      · simp
+      · simp [m]
+    · simp only [better, hl, if_false, Bool.false_eq_true] at h
+      exact List.mem_cons_of_mem _ (ih h)
+
+theorem fitRuns_eq (rd : List α → List α → α) (conv : List (List α) → List (List α) → Bool)
+    (ltInf : α → Bool) (xs : List (List α)) (budget : Nat) (inits : List (List (List α))) :
+    fitRuns rd conv ltInf xs budget inits =
+      (inits.map (runOnce rd conv xs budget)).foldl (better ltInf) none := by
+  unfold fitRuns; rw [List.foldl_map]
+
+/-- the kept run is one of the runs -/
+theorem fitRuns_mem (rd : List α → List α → α) (conv : List (List α) → List (List α) → Bool)
+    (ltInf : α → Bool) (xs : List (List α)) (budget : Nat) (inits : List (List (List α)))
+    (b : Run α) (h : fitRuns rd conv ltInf xs budget inits = some b) :
+    ∃ init ∈ inits, b = runOnce rd conv xs budget init := by
+  rw [fitRuns_eq] at h
+  have := foldl_better_mem ltInf _ b h
+  obtain ⟨init, hi, rfl⟩ := List.mem_map.mp this
+  exact ⟨init, hi, rfl⟩
+
+/-- more restarts: the kept inertia can only go down -/
+theorem fitRuns_append_le (rd : List α → List α → α) (conv : List (List α) → List (List α) → Bool)
+    (ltInf : α → Bool) (xs : List (List α)) (budget : Nat) (inits more : List (List (List α)))
+    (b : Run α) (h : fitRuns rd conv ltInf xs budget inits = some b) :
+    ∃ b', fitRuns rd conv ltInf xs budget (inits ++ more) = some b' ∧ b'.inertia ≤ b.inertia := by
+  rw [fitRuns_eq] at h ⊢
+  rw [List.map_append, List.foldl_append, h]
+  obtain ⟨b', e, l, _⟩ := foldl_better_some ltInf (more.map (runOnce rd conv xs budget)) b
+  exact ⟨b', e, l⟩
+
+theorem list_range_sum {M : Type} [AddCommMonoid M] (f : Nat → M) (k : Nat) :
+    ((List.range k).map f).sum = ∑ j ∈ Finset.range k, f j := by
+  induction k with
+  | zero => simp
+  | succ k ih => rw [List.range_succ, List.map_append, List.sum_append, ih, Finset.sum_range_succ]; simp
+
+theorem countOf_cons (j m : Nat) (mem : List Nat) :
+    countOf j (m :: mem) = (if m = j then 1 else 0) + countOf j mem := by
+  unfold countOf
+  by_cases h : m = j
+  · simp [h]; omega
+  · simp [h]
+
+/-- the per-cluster counts add up to the number of rows -/
+theorem countOf_sum (k : Nat) (mem : List Nat) (hm : ∀ j ∈ mem, j < k) :
+    ((List.range k).map fun j => countOf j mem).sum = mem.length := by
+  rw [list_range_sum]
+  induction mem with
+  | nil => simp [countOf]
+  | cons m mem ih =>
+    have hmk : m < k := hm m (by simp)
+    simp only [countOf_cons, Finset.sum_add_distrib, Finset.sum_ite_eq, Finset.mem_range, hmk,
+      if_true, List.length_cons]
+    rw [ih (fun j hj => hm j (by simp [hj]))]; omega
+
+theorem runOnce_inertia (rd : List α → List α → α) (conv : List (List α) → List (List α) → Bool)
+    (xs : List (List α)) (budget : Nat) (init : List (List α)) :
+    (runOnce rd conv xs budget init).inertia = cost rd (runOnce rd conv xs budget init).centroids xs := by
+  simp only [runOnce, cost]; rw [sumU8_eq_sum, sumS_eq_sum]
 
 end Sums
 
